@@ -27,8 +27,41 @@
 (*   - TlsStream::new: `.expect("should be valid dns name")`                *)
 (*   - authority_form: `unreachable!` for a CONNECT without authority       *)
 (*   - absolute_form: debug assertions on scheme / authority (debug builds) *)
+(*                                                                         *)
+(* C17 quantifies over "inputs, CONFIGURATIONS": besides the request the    *)
+(* vector carries the configuration of the stack and the HISTORY of the     *)
+(* client the request is sent through, as classes:                          *)
+(*   pool      with / without pool (Builder::with_pool / without_pool)       *)
+(*   idle      pool::Config::idle_timeout     None, Some(0), Some(1ns),      *)
+(*             Some(90s) (default), Some(Duration::MAX)                      *)
+(*   maxidle   pool::Config::max_idle_per_host  0, 1, 32 (default), usize::MAX *)
+(*   cap       pool::Config::continue_after_preemption                       *)
+(*   rto       Builder::with_optional_timeout  None, Some(0), Some(30s),     *)
+(*             Some(Duration::MAX)                                           *)
+(*   redir     Builder redirect policy  off / policy::Standard               *)
+(*   net       "mem" in-memory transport | "tcp" the real TcpTransport on    *)
+(*             loopback, configured by TcpTransportConfig:                   *)
+(*   ct, het, ka   connect_timeout, happy_eyeballs_timeout, keep_alive_timeout *)
+(*             None, Some(0), default, Some(Duration::MAX)                   *)
+(*   hec       happy_eyeballs_concurrency  None, Some(0), Some(1), Some(2)   *)
+(*             (default), Some(usize::MAX)                                   *)
+(*   buf       send/recv_buffer_size  None, Some(0), Some(usize::MAX)        *)
+(*   hist      the request is the 1st, 2nd or 3rd request of the same client *)
+(*             to the same origin; every previous request either completed   *)
+(*             and left its connection idle ("idle"), is still in flight     *)
+(*             ("inflight"), or completed and the peer then closed the        *)
+(*             connections ("closed")                                        *)
+(* Dimensions that cannot influence the stack of the vector are pinned to    *)
+(* the centre value (Norm): pool classes without a pool, builder classes     *)
+(* off the Client stack, TcpTransportConfig classes off the TCP transport.   *)
+(* The outcome stays what C17 says - a response or an error, never a panic - *)
+(* for every combination; the configuration and history only add stages      *)
+(* (request timeout, check-out with re-use, TCP dial) that end in "err" or   *)
+(* continue.  `out.reuse` predicts whether the request is carried by a       *)
+(* connection of a previous request ("yes" / "no" / "any"); a difference is  *)
+(* DRIFT (it guards the history machinery of the driver against vacuity).    *)
 (***************************************************************************)
-EXTENDS Naturals, FiniteSets, TLC
+EXTENDS Naturals, FiniteSets, Sequences, TLC
 
 Vers       == {"0.9", "1.0", "1.1", "2", "3"}
 Methods    == {"GET", "POST", "CONNECT", "OPTIONS", "ext"}
@@ -38,6 +71,18 @@ Hdrs       == {"none", "host", "conn", "big"}
 Bodies     == {"empty", "some"}
 Stacks     == {"client", "pool", "nopool", "connector", "connectorBare"}
 Transports == {"plain", "tls", "tlsalpn"}
+
+\* configuration and history classes
+Nets       == {"mem", "tcp"}
+OnOff      == {"on", "off"}
+IdleTOs    == {"none", "zero", "tiny", "default", "max"}
+MaxIdles   == {"zero", "one", "default", "max"}
+ReqTOs     == {"none", "zero", "default", "max"}
+TcpTOs     == {"none", "zero", "default", "max"}
+Concs      == {"none", "zero", "one", "default", "max"}
+Bufs       == {"none", "zero", "max"}
+PrevStates == {"idle", "inflight", "closed"}
+Hists      == {"first"} \cup PrevStates \cup {a \o "-" \o b : a, b \in PrevStates}
 
 VARIABLES v, asBuilt, pc, conn, out
 vars == <<v, asBuilt, pc, conn, out>>
@@ -54,17 +99,61 @@ Checks(x)       == x.stack # "connectorBare"                \* SetHostHeader, Ht
 \* Payloads onto every vector and the monitor checks the property on every (vector, payload) record.
 Payloads == [hdr : Hdrs, body : Bodies]
 
-Vectors == {x \in [ver : Vers, method : Methods, uri : UriForms, host : Hosts,
-                   stack : Stacks, transport : Transports, da : BOOLEAN] :
-              (x.host = "none") = ~HasAuthority(x)}
+\* the request grammar with default configuration and no history (every combination is a vector)
+BaseVectors == {x \in [ver : Vers, method : Methods, uri : UriForms, host : Hosts,
+                       stack : Stacks, transport : Transports, da : BOOLEAN] :
+                  (x.host = "none") = ~HasAuthority(x)}
 
-Init == /\ v \in Vectors
+\* ---- the full vector: request x configuration x history ---------------------------------------------
+Dom == [ver |-> Vers, method |-> Methods, uri |-> UriForms, host |-> Hosts, stack |-> Stacks, transport |-> Transports,
+        net |-> Nets, pool |-> OnOff, idle |-> IdleTOs, maxidle |-> MaxIdles, cap |-> OnOff, rto |-> ReqTOs,
+        redir |-> OnOff, ct |-> TcpTOs, het |-> TcpTOs, hec |-> Concs, ka |-> TcpTOs, buf |-> Bufs, hist |-> Hists]
+Dims == DOMAIN Dom
+PoolDims    == {"idle", "maxidle", "cap"}
+BuilderDims == {"pool", "rto", "redir"}
+TcpDims     == {"ct", "het", "hec", "ka", "buf"}
+
+\* the centre: an ordinary request through the Client as the driver has always built it, first request
+Centre == [ver |-> "1.1", method |-> "GET", uri |-> "http", host |-> "name", stack |-> "client", transport |-> "plain",
+           net |-> "mem", pool |-> "on", idle |-> "default", maxidle |-> "default", cap |-> "on", rto |-> "none",
+           redir |-> "off", ct |-> "default", het |-> "default", hec |-> "default", ka |-> "default", buf |-> "none",
+           hist |-> "first", da |-> FALSE]
+Fields == DOMAIN Centre        \* Dims and "da"
+
+HasPool(x)  == (x.stack = "client" /\ x.pool = "on") \/ x.stack = "pool"
+Relevant(x, d) == CASE d \in PoolDims    -> HasPool(x)
+                    [] d \in BuilderDims -> x.stack = "client"
+                    [] d \in TcpDims     -> x.net = "tcp"
+                    [] OTHER             -> TRUE
+\* pin what cannot matter; give the URI form the host it needs
+Norm(x) == LET y == [x EXCEPT !.host = IF HasAuthority(x) THEN (IF x.host = "none" THEN "name" ELSE x.host) ELSE "none"]
+               z == [d \in Fields |-> IF d \in BuilderDims /\ ~Relevant(y, d) THEN Centre[d] ELSE y[d]]
+           IN  [d \in Fields |-> IF d \in Dims /\ ~Relevant(z, d) THEN Centre[d] ELSE z[d]]
+Ext(b) == [d \in Fields |-> IF d \in DOMAIN b THEN b[d] ELSE Centre[d]]
+
+IsVector(x) == /\ DOMAIN x = Fields
+               /\ \A d \in Dims : x[d] \in Dom[d]
+               /\ x.da \in BOOLEAN
+               /\ Norm(x) = x
+BaseOf(x) == [d \in {"ver", "method", "uri", "host", "stack", "transport", "da"} |-> x[d]]
+
+\* position of the request and the state the previous requests left behind
+Pos(x)      == IF x.hist = "first" THEN 1 ELSE IF x.hist \in PrevStates THEN 2 ELSE 3
+LastPrev(x) == CASE x.hist = "first" -> "none"
+                 [] x.hist \in PrevStates -> x.hist
+                 [] OTHER -> CHOOSE b \in PrevStates : \E a \in PrevStates : x.hist = a \o "-" \o b
+
+\* the set of vectors a configuration file checks / generates (MC_Pipeline overrides: base grammar plus the
+\* configuration x history neighbourhoods and samples)
+InitVectors == {Ext(b) : b \in BaseVectors}
+
+Init == /\ v \in InitVectors
         /\ asBuilt \in BOOLEAN
         /\ pc = "call"
         /\ conn = "none"
-        /\ out = [classes |-> {}, stage |-> "none"]
+        /\ out = [classes |-> {}, stage |-> "none", reuse |-> "none"]
 
-Finish(cs, st) == /\ out' = [classes |-> cs, stage |-> st]
+Finish(cs, st) == /\ out' = [classes |-> cs, stage |-> st, reuse |-> out.reuse]
                   /\ pc' = "done"
                   /\ UNCHANGED <<v, asBuilt, conn>>
 Goto(p) == pc' = p /\ UNCHANGED <<v, asBuilt, conn, out>>
@@ -85,10 +174,10 @@ Supported(x) == x.ver \in {"1.0", "1.1", "2"}
 Legacy(x)    == x.ver = "0.9"      \* "HTTP/0.9 and HTTP/1.0 are supported by HTTP/1.1" (doc of HttpProtocol)
 VersionOk ==
   /\ pc = "version" /\ Supported(v)
-  /\ Goto("transport")
+  /\ Goto("checkout")
 VersionLegacyAsHttp1 ==          \* intended: either carried by an HTTP/1.1 connection as documented ...
   /\ pc = "version" /\ Legacy(v) /\ ~asBuilt
-  /\ Goto("transport")
+  /\ Goto("checkout")
 VersionPanic ==                  \* _ => panic!("Unsupported HTTP protocol")
   /\ pc = "version" /\ ~Supported(v) /\ asBuilt
   /\ Finish({"panic"}, "version")
@@ -99,6 +188,52 @@ VersionError ==                  \* ... or refused with an error to the caller (
 \* ---- Connector: transport.connect(parts) = TlsTransport::call -----------------------------------
 TlsRoute(x) == TlsOn(x) /\ Secure(x)
 NameConverts(x) == x.host \in {"name", "v4", "legal"} \/ (~asBuilt /\ x.host = "v6")
+\* HttpProtocol::Http2 -> h2; Http1 -> h2 when ALPN negotiated h2 (client offers it only in `tlsalpn`), else h1
+ConnVersion(x) == IF x.ver = "2" \/ (TlsRoute(x) /\ x.transport = "tlsalpn") THEN "h2" ELSE "h1"
+
+\* ---- the request timeout of the Client (service::Timeout around everything below) -------------------------
+\* TimeoutFuture polls the inner future first and then a tokio Sleep of the configured duration: Some(0) expires at
+\* the first poll at which the inner future is pending, i.e. as soon as anything has to be awaited; Some(MAX) and
+\* Some(30s) never expire against a peer that answers. The synchronous refusals above (key, version) win the race.
+RtoZero(x) == x.stack = "client" /\ x.rto = "zero"
+ReqTimeoutZero ==
+  /\ pc = "checkout" /\ RtoZero(v)
+  /\ Finish({"err"}, "reqtimeout")
+
+\* ---- Pool::checkout (only with a pool): a connection a previous request left behind, or a new one -----------
+\* A connection can be waiting only if the pool keeps any (max_idle_per_host > 0), the last thing that happened
+\* was not the peer closing the connections, and the previous requests (same origin, same version) could get one.
+MayReuse(x)  == /\ HasPool(x) /\ Pos(x) > 1 /\ x.maxidle # "zero" /\ LastPrev(x) # "closed"
+                /\ (TlsRoute(x) => NameConverts(x))
+\* ... and is found for certain when the previous request has completed, its connection is kept alive by the
+\* protocol (HTTP/1.1 and HTTP/2), not yet expired (Some(1ns) has always expired; None, Some(0) and Some(MAX)
+\* never do) and the TLS handshake to an unusual name did not fail
+MustReuse(x) == /\ MayReuse(x) /\ LastPrev(x) = "idle" /\ x.idle # "tiny" /\ x.ver \in {"1.1", "2"}
+                /\ x.host # "legal" /\ x.net = "mem"
+CheckoutReuse ==
+  /\ pc = "checkout" /\ ~RtoZero(v) /\ MayReuse(v)
+  /\ conn' = ConnVersion(v)
+  /\ out' = [out EXCEPT !.reuse = "yes"]
+  /\ pc' = IF Checks(v) THEN "sethost" ELSE "send"
+  /\ UNCHANGED <<v, asBuilt>>
+CheckoutDial ==                  \* also every stack without a pool
+  /\ pc = "checkout" /\ ~RtoZero(v) /\ ~MustReuse(v)
+  /\ out' = [out EXCEPT !.reuse = "no"]
+  /\ pc' = "dial"
+  /\ UNCHANGED <<v, asBuilt, conn>>
+
+\* ---- the transport below TLS: in memory, or TcpTransport::call -------------------------------------------------
+\* get_host_and_port ("missing host", "missing port"), the resolver under connect_timeout, TcpConnecting::connect
+\* (delay = happy_eyeballs_timeout / number of addresses, EyeballSet, one attempt per address under
+\* connect_timeout): an error for a URI without host or port, an unresolvable name, Some(0) timeouts, a refused
+\* connection - or a stream. Which one is below the abstraction (spelling of the port, the resolver's answer).
+DialMem ==
+  /\ pc = "dial" /\ v.net = "mem"
+  /\ Goto("transport")
+DialTcp ==
+  /\ pc = "dial" /\ v.net = "tcp"
+  /\ \/ Goto("transport")
+     \/ Finish({"err"}, "tcp")
 ConnectPlain ==
   /\ pc = "transport" /\ ~TlsRoute(v)
   /\ Goto("protocol")
@@ -118,8 +253,6 @@ ConnectTlsHandshake ==
        ELSE Goto("protocol")
 
 \* ---- HttpConnectionBuilder::handshake: protocol of the connection ---------------------------------
-\* HttpProtocol::Http2 -> h2; Http1 -> h2 when ALPN negotiated h2 (client offers it only in `tlsalpn`), else h1
-ConnVersion(x) == IF x.ver = "2" \/ (TlsRoute(x) /\ x.transport = "tlsalpn") THEN "h2" ELSE "h1"
 ProtocolHandshake ==
   /\ pc = "protocol"
   /\ conn' = ConnVersion(v)
@@ -172,6 +305,7 @@ Send ==
 
 Next == \/ PoolKeyMissingScheme \/ PoolKeyOk \/ ConnectorCall
         \/ VersionOk \/ VersionLegacyAsHttp1 \/ VersionPanic \/ VersionError
+        \/ ReqTimeoutZero \/ CheckoutReuse \/ CheckoutDial \/ DialMem \/ DialTcp
         \/ ConnectPlain \/ ConnectTlsNamePanic \/ ConnectTlsNameError \/ ConnectTlsHandshake
         \/ ProtocolHandshake \/ SetHost \/ H2ConnectRefused \/ H2ChecksPass
         \/ H1Skip \/ H1ConnectAuthorityForm \/ H1ConnectNoAuthorityPanic \/ H1ConnectNoAuthorityError
@@ -195,8 +329,9 @@ M_Returns == Claimed => P_Returns(v, ModelObs)
 AB == Done /\ asBuilt
 AB_NoPanic == AB => P_NoPanic(v, ModelObs)
 
-TypeOK == /\ v \in Vectors /\ asBuilt \in BOOLEAN /\ conn \in {"none", "h1", "h2"}
-          /\ pc \in {"call", "version", "transport", "protocol", "sethost", "h2checks", "h1checks", "send", "done"}
-          /\ out.classes \subseteq {"resp", "err", "panic"}
+TypeOK == /\ IsVector(v) /\ asBuilt \in BOOLEAN /\ conn \in {"none", "h1", "h2"}
+          /\ pc \in {"call", "version", "checkout", "dial", "transport", "protocol", "sethost", "h2checks", "h1checks",
+                      "send", "done"}
+          /\ out.classes \subseteq {"resp", "err", "panic"} /\ out.reuse \in {"none", "yes", "no"}
 Progress == pc # "done" => ENABLED Next
 =============================================================================
